@@ -203,6 +203,6 @@ pub fn prop() -> Prop<Case> {
         run,
         enumerate: None,
         exhaustive: |_| false,
-        max_shrink_iters: 1500,
+        max_shrink_iters: 400,
     }
 }
